@@ -37,6 +37,7 @@ static std::string pshow(const Part &p) { vf::KS k; for (size_t i = 0; i < p.b.s
 // results written by the ranks, read by the harness after the run
 struct Out {
     mk::Dense<double> T, AAt, AtA, S, Cp;      // assembled global results
+    mk::Dense<double> K, T2;                    // kept source after move_to_backend(keep_src) and its transpose
     std::vector<std::string> err;               // structural errors seen by ranks
     std::vector<double> y, r;                   // spmv / residual (by global row)
     std::vector<double> ip, gersh, power;       // per rank scalars
@@ -147,6 +148,9 @@ static void rank_body(int rank, const Case &cs, Out &o) {
         // beta = 0 must ignore previous content
         { backend::numa_vector<double> z(nr); for (int i = 0; i < nr; ++i) z[i] = std::numeric_limits<double>::quiet_NaN(); backend::spmv(1.0, *A, x, 0.0, z);
           for (int i = 0; i < nr; ++i) if (!(z[i] == (o.y[rb + i] + (2 - ((rb + i) % 3))) / 2.0)) { o.err.push_back("spmv beta=0 depends on previous output content"); break; } }
+        // the source kept by move_to_backend(keep_src = true) must still describe the same matrix and be usable
+        assemble(*A, rb, o.K, o.err, "kept source after move_to_backend");
+        { auto At2 = mpi::transpose(*A); assemble(*At2, cb, o.T2, o.err, "transpose of kept source"); }
         if (cs.m == cs.n) {
             // inner product of two vectors distributed like the rows (needs equal lengths)
             backend::numa_vector<double> u(nr), w(nr);
@@ -164,7 +168,7 @@ static void rank_body(int rank, const Case &cs, Out &o) {
 
 static Out fresh_out(const Case &cs) {
     int k = cs.rp.k();
-    Out o; o.T = mk::Dense<double>(cs.n, cs.m); o.AAt = mk::Dense<double>(cs.m, cs.m); o.AtA = mk::Dense<double>(cs.n, cs.n); o.S = mk::Dense<double>(cs.m, cs.n); o.Cp = mk::Dense<double>(cs.m, cs.n);
+    Out o; o.K = mk::Dense<double>(cs.m, cs.n); o.T2 = mk::Dense<double>(cs.n, cs.m); o.T = mk::Dense<double>(cs.n, cs.m); o.AAt = mk::Dense<double>(cs.m, cs.m); o.AtA = mk::Dense<double>(cs.n, cs.n); o.S = mk::Dense<double>(cs.m, cs.n); o.Cp = mk::Dense<double>(cs.m, cs.n);
     o.y.assign(cs.m, 0); o.r.assign(cs.m, 0); o.ip.assign(k, 0); o.gersh.assign(k, 0); o.power.assign(k, 0);
     o.grows.assign(k, -1); o.gcols.assign(k, -1); o.gnnz.assign(k, -1); o.rr.assign(k, "not run"); o.exc.assign(k, "");
     return o;
@@ -180,7 +184,7 @@ static uint64_t rank_digest(int rank, const Case &cs, const Out &o) {
     auto rows = [&](const mk::Dense<double> &D, int b, int e) {
         for (int i = b; i < e && i < D.m; ++i) for (int j = 0; j < D.n; ++j) { h = vf::hmix(h, (uint64_t)D.st(i, j)); if (D.st(i, j)) { uint64_t bits; std::memcpy(&bits, &D(i, j), 8); h = vf::hmix(h, bits); } }
     };
-    rows(o.T, cb, ce); rows(o.AAt, rb, re); rows(o.AtA, cb, ce); rows(o.S, rb, re); rows(o.Cp, rb, re);
+    rows(o.K, rb, re); rows(o.T2, cb, ce); rows(o.T, cb, ce); rows(o.AAt, rb, re); rows(o.AtA, cb, ce); rows(o.S, rb, re); rows(o.Cp, rb, re);
     for (int i = rb; i < re; ++i) { uint64_t b1, b2; std::memcpy(&b1, &o.y[i], 8); std::memcpy(&b2, &o.r[i], 8); h = vf::hmix(h, b1); h = vf::hmix(h, b2); }
     { uint64_t b; std::memcpy(&b, &o.ip[rank], 8); h = vf::hmix(h, b); std::memcpy(&b, &o.gersh[rank], 8); h = vf::hmix(h, b); }
     h = vf::hmix(h, (uint64_t)o.grows[rank]); h = vf::hmix(h, (uint64_t)o.gcols[rank]); h = vf::hmix(h, (uint64_t)o.gnnz[rank]);
